@@ -517,6 +517,10 @@ func (c *Ctx) Finish(verifDir string) {
 		c.finishShard()
 	}
 	trimViolations(c)
+	if os.Getenv("VERIF_SEQ_PROBE") != "" && len(c.viol) > 0 {
+		fmt.Printf("SEQ-FIRST-FAILURE %s\n", caseKey(c.viol[0].Sub, c.viol[0].Case))
+		os.Exit(3)
+	}
 	kf := loadKnown(verifDir)
 	recorded := len(c.viol)
 	label := c.Prop
@@ -584,6 +588,30 @@ func (c *Ctx) Finish(verifDir string) {
 		}
 		os.Exit(0)
 	}
+	historyViolation := false
+	if recorded > 0 && len(confirmed) == 0 && len(knownHits) == 0 {
+		// Sequential evaluation (one goroutine, fixed case order) is a deterministic history. A failure
+		// that no single case reproduces alone but that the same history reproduces at the same case in
+		// fresh processes is a violation that needs the history (package state built up by earlier
+		// calls: a cache with an eviction rule, a counter): confirm it by replaying the history.
+		first := c.viol[0]
+		fkey := caseKey(first.Sub, first.Case)
+		if os.Getenv("VERIF_SEQ_PROBE") != "" {
+			fmt.Printf("SEQ-FIRST-FAILURE %s\n", fkey)
+			os.Exit(3)
+		}
+		same := 0
+		for k := 0; k < 2; k++ {
+			if seqProbe(os.Args[1:]) == fkey {
+				same++
+			}
+		}
+		if same == 2 {
+			c.Note("a failure that no single case reproduces in a fresh process is reproduced at the same case by the sequential history of the whole check in fresh processes (3/3): reported with the history as its replay")
+			confirmed = append(confirmed, first)
+			historyViolation = true
+		}
+	}
 	if recorded > 0 && len(confirmed) == 0 && len(knownHits) == 0 {
 		if !c.NoEvidence {
 			c.writeEvidence(verifDir, 0, 0)
@@ -601,8 +629,13 @@ func (c *Ctx) Finish(verifDir string) {
 		name := fmt.Sprintf("%s-%s.json", label, hex.EncodeToString(h[:6]))
 		path := filepath.Join(outDir(verifDir), "replays", name)
 		os.MkdirAll(filepath.Dir(path), 0o755)
-		b, _ := json.MarshalIndent(map[string]any{"property": label, "sub": v.Sub, "case": v.Case, "msg": v.Msg,
-			"key": caseKey(v.Sub, v.Case), "build_tags": c.BuildTags}, "", " ")
+		rec := map[string]any{"property": label, "sub": v.Sub, "case": v.Case, "msg": v.Msg,
+			"key": caseKey(v.Sub, v.Case), "build_tags": c.BuildTags}
+		if historyViolation {
+			rec["history"] = "sequential evaluation of the whole check up to this case (VERIF_SEQUENTIAL=1 GOMAXPROCS=1)"
+			rec["run"] = map[string]string{"prop": c.Prop, "tier": c.Tier}
+		}
+		b, _ := json.MarshalIndent(rec, "", " ")
 		if err := os.WriteFile(path, b, 0o644); err != nil {
 			InternalError("cannot write replay file: %v", err)
 		}
@@ -695,18 +728,62 @@ func (c *Ctx) writeEvidence(verifDir string, nviol, nknown int) {
 
 // Replay re-executes the case stored in a replay file; exit 1 + VIOLATION if
 // it still fails, 0 if it passes now.
+// seqProbe runs the whole check sequentially in a fresh process and returns the key of its first
+// recorded failure ("" if none).
+func seqProbe(args []string) string {
+	exe, err := os.Executable()
+	if err != nil {
+		InternalError("%v", err)
+	}
+	cmd := exec.Command(exe, args...)
+	cmd.Env = append(os.Environ(), "VERIF_SEQUENTIAL=1", "VERIF_SEQ_PROBE=1", "GOMAXPROCS=1", "VERIF_SHARD=")
+	out, _ := cmd.Output()
+	for _, l := range strings.Split(string(out), "\n") {
+		if strings.HasPrefix(l, "SEQ-FIRST-FAILURE ") {
+			return strings.TrimSpace(strings.TrimPrefix(l, "SEQ-FIRST-FAILURE "))
+		}
+	}
+	return ""
+}
+
 func Replay(path string) {
 	b, err := os.ReadFile(path)
 	if err != nil {
 		InternalError("replay: %v", err)
 	}
 	var r struct {
-		Property string          `json:"property"`
-		Sub      string          `json:"sub"`
-		Case     json.RawMessage `json:"case"`
+		Property string            `json:"property"`
+		Sub      string            `json:"sub"`
+		Case     json.RawMessage   `json:"case"`
+		History  string            `json:"history"`
+		Run      map[string]string `json:"run"`
+		Key      string            `json:"key"`
+		Msg      string            `json:"msg"`
 	}
 	if err := json.Unmarshal(b, &r); err != nil {
 		InternalError("replay: %v", err)
+	}
+	if r.History != "" {
+		// the violation needs the history: replay the sequential evaluation of the whole check
+		verif, out := "/verif", ""
+		for i, a := range os.Args {
+			if a == "-verif" && i+1 < len(os.Args) {
+				verif = os.Args[i+1]
+			}
+			if a == "-out" && i+1 < len(os.Args) {
+				out = os.Args[i+1]
+			}
+		}
+		args := []string{"-prop", r.Run["prop"], "-tier", r.Run["tier"], "-verif", verif, "-no-evidence"}
+		if out != "" {
+			args = append(args, "-out", out)
+		}
+		if got := seqProbe(args); got == r.Key {
+			fmt.Printf("VIOLATION property=%s replay=%s\n  %s\n", r.Property, path, firstLine(r.Msg))
+			os.Exit(1)
+		}
+		fmt.Printf("replay of %s: the sequential history no longer fails at this case on this tree\n", path)
+		os.Exit(0)
 	}
 	rp := replayers[r.Sub]
 	if rp == nil {
